@@ -501,6 +501,7 @@ func (c *trCtx) passExtras(tf *trFunc) []string {
 			names = append(names, n) // the caller's own (trans_units_tablerender.go)
 			continue
 		}
+		ty = c.requalifyExtra(tf, ty) // the callee lives in another unit: its type names get their namespace (trans_units_mapping.go)
 		c.norder++
 		n := "extra" + itoa(c.norder)
 		c.extraParams = append(c.extraParams, "("+n+" : "+ty+")")
@@ -913,6 +914,9 @@ func (c *trCtx) call(x *ast.CallExpr) string {
 		c.info().Types[&y] = c.info().Types[x]
 		return c.call(&y)
 	}
+	if r, ok := c.tparamMethodCall(x); ok {
+		return r // t.Name() for t of a type parameter constrained by an interface: the dictionary parameter (trans_units_mapping.go)
+	}
 	if r, ok := c.treeCallExpr(x); ok {
 		return r
 	}
@@ -992,9 +996,20 @@ func (c *trCtx) call(x *ast.CallExpr) string {
 	sigParams := fobj.Type().(*types.Signature).Params()
 	_, calleePinned := trPinned[full]
 	for i, a := range argExprs {
+		if c.droppedArg(fobj, i) {
+			continue // the callee's parameter is dropped (an untranslatable type: the registry) (trans_units_mapping.go)
+		}
+		if r, ok := c.variadicArgs(fobj, x, i, argExprs); ok {
+			args = append(args, r) // the trailing arguments of a translated variadic function as one list (trans_units_mapping.go)
+			break
+		}
 		if calleePinned {
 			args = append(args, c.expr(a)) // the prelude's helpers take plain Lean functions
 		} else if i < sigParams.Len() && !fobj.Type().(*types.Signature).Variadic() {
+			if r, ok := c.extNilSlice(fobj, i, a); ok {
+				args = append(args, r) // the result of an untranslated call for a nil-tracked slice parameter: an ext parameter `Option (List T)` (trans_units_mapping.go)
+				continue
+			}
 			if trNilSliceParam(fobj, i) {
 				args = append(args, c.nilSliceValue(a, sigParams.At(i).Type()))
 				continue
@@ -1026,9 +1041,14 @@ func (c *trCtx) call(x *ast.CallExpr) string {
 		trFail(x.Pos(), "call of %s (assigns through a pointer or map parameter) inside an expression is outside the subset", full)
 	}
 	// the callee's extra parameters (map iteration orders, explicit fuels) become extra parameters of this function
-	args = append(args, c.passExtras(tf)...)
+	args = append(c.dictArgs(tf, x), args...) // the methods of interface-constrained type arguments (trans_units_mapping.go)
+	extras := c.passExtras(tf)
 	c.fn.deps = append(c.fn.deps, tf)
 	name := c.t.qname(c.unit(), tf.unit, tf.leanName)
+	if r, ok := c.partialApp(tf, name, args, extras); ok {
+		return r // a curried function called with its outer arguments: a function value (trans_units_mapping.go)
+	}
+	args = append(args, extras...)
 	app := name
 	if len(args) > 0 {
 		app += " " + strings.Join(args, " ")
